@@ -298,8 +298,62 @@ def run(ctx):  # noqa: C901
             p = ctx.write_replay("special-mismatch.txt", open(out).read()[-5000:])
             ctx.violation(p, "special-value stream reports %d mismatches" % t_mism, found_input=True, sig="C19-special")
 
+    # -- fixed witnesses (seed independent): the code against the DEFINING formulas of C19's statement.
+    #    Reported only through the two signatures below (known findings V2, V3); pass silently once fixed.
+    wit = {"l1_norm_not_manhattan": [], "normal_opposite_nonconvex": []}
+    out = work / "witness.txt"
+    rc, err, secs = run_to_file([str(drv), "witness"], out, None, timeout=120)
+    if rc != 0:
+        p = ctx.write_replay("witness-crash.txt", "vec_drv witness exited with %s\ncommand: %s witness\nstderr:\n%s\n" % (rc, drv, err[-6000:]))
+        ctx.violation(p, "driver abort in witness mode (rc=%s)" % rc, found_input=True, sig="C19-crash-witness")
+    else:
+        jout = work / "witness.judged"
+        rc, err, secs = run_to_file(ev, jout, str(out), timeout=300, cwd=ev_cwd)
+        if rc != 0:
+            raise RuntimeError("Lean evaluator failed on the witnesses (rc=%s): %s" % (rc, err[-2000:]))
+        for line in open(jout, errors="replace"):
+            m = re.match(r"WITNESS (\S+) (PASS|FAIL|INVALID) :: (.*?) :: (.*)$", line.strip())
+            if not m:
+                continue
+            if m.group(2) == "INVALID" or m.group(1) not in wit:
+                raise RuntimeError("malformed witness: " + line.strip())
+            wit[m.group(1)].append((m.group(2), m.group(3), m.group(4)))
+        if len(wit["l1_norm_not_manhattan"]) < 2 or len(wit["normal_opposite_nonconvex"]) < 2:
+            raise RuntimeError("witness lines missing: " + open(jout, errors="replace").read()[-1000:])
+        fails = [w for w in wit["l1_norm_not_manhattan"] if w[0] == "FAIL"]
+        if fails:
+            txt = ["C19 fixed witness: l1_norm() against its defining formula, the L1 (Manhattan) norm sum |x_i|",
+                   "(Vector11T.hh:494-498, documented 'compute L1 (Manhattan) norm', is std::accumulate of the components, no abs).",
+                   "Proved negation in the model that mirrors the code: OVM.Props.C19.l1_ne_manhattan",
+                   "(and OVM.Props.C19.l1_eq_manhattan_partial: equal only when no component is negative).",
+                   "", "operator     : l1_norm", "scalar type  : int", "dimension    : 2", "operands     : 1 -2",
+                   "defining formula (Lean evaluator): |1| + |-2| = 3;   library: Vec2i(1,-2).l1_norm() = -1", "",
+                   "witness lines (W l1 <type> <N> <operands> = <library result>) and the Lean judgement:"]
+            txt += ["  %s    [%s: %s]" % (w[2], w[0], w[1]) for w in wit["l1_norm_not_manhattan"]]
+            txt += ["", "re-run:  %s witness | (cd %s && %s)" % (drv, LEAN, " ".join(ev)),
+                    "or:      echo 'E i 2 l1 1 -2' | %s eval" % drv]
+            p = ctx.write_replay("witness-l1_norm.txt", "\n".join(txt) + "\n")
+            ctx.violation(p, "l1_norm() is the plain sum, not the L1 norm: Vec2i(1,-2).l1_norm() = -1",
+                          found_input=True, sig="C19:l1_norm_not_manhattan")
+        fails = [w for w in wit["normal_opposite_nonconvex"] if w[0] == "FAIL"]
+        if fails:
+            txt = ["C19 fixed witness: 'the normals of the two sides of a face being opposite' on a PLANAR, NON-CONVEX face.",
+                   "GeometryKernel::normal(hf) (GeometryKernel.hh:187-205) uses the first two halfedges of the side it is given:",
+                   "the corner at v1 for halfface 0, the corner at v(k-1) for the opposite halfface (cycle v0, v(k-1), ..., v1).",
+                   "When one of the two is the reflex corner both calls return the SAME unit vector.",
+                   "Proved negation in the model: OVM.Props.C19.normalU_opposite_same_direction_nonconvex",
+                   "(general law: OVM.Props.C19.normalU_opposite_eq_neg_lastCorner; exact for triangles / parallelograms).",
+                   "", "witness lines:  W normal_nonconvex <type> <k> <x y z of the k vertices of halfface 0, in hfv_iter order>",
+                   "                = <normal(halfface 0)> <normal(halfface 1)>      with the Lean judgement (planarity is checked exactly):"]
+            txt += ["  %s\n      [%s: %s]" % (w[2], w[0], w[1]) for w in wit["normal_opposite_nonconvex"]]
+            txt += ["", "first failing witness: polyhedral mesh with the single face add_face({v0..}) on the positions above;",
+                    "re-run:  %s witness | (cd %s && %s)" % (drv, LEAN, " ".join(ev))]
+            p = ctx.write_replay("witness-normal_opposite.txt", "\n".join(txt) + "\n")
+            ctx.violation(p, "normal(hf) and normal(opposite hf) are not opposite on a planar non-convex face: " + fails[0][2][:160],
+                          found_input=True, sig="C19:normal_opposite_nonconvex")
+
     # -- proof stage broken and nothing concrete found
-    if not res["ok"] and not ctx.violations:
+    if not res["ok"] and not [v for v in ctx.violations if not str(v[3]).startswith("C19:")]:
         p = ctx.write_replay("obligation.txt",
                              "proof obligation of C19 that no longer checks:\n  " + "\n  ".join(res["failures"]) +
                              "\n\nThe correspondence run found no concrete failing input "
@@ -356,6 +410,7 @@ def run(ctx):  # noqa: C901
         },
         "special_stream": {"evaluations": t_evals, "mismatches": t_mism, "per_operator": dict(t_ops),
                            "label": "testing (not proof, not model-based)"},
+        "fixed_witnesses": {k: [{"verdict": w[0], "detail": w[1], "line": w[2]} for w in v] for k, v in wit.items()},
         "observations": {
             "apply_ignores_its_vector": apply_obs,
             "note": "VectorT::apply (outside C19's operator list) transforms an uninitialised temporary: "
